@@ -7,6 +7,7 @@ CONSTANTS
   Fix_LinksToAll = FALSE
   Fix_ServeAll = TRUE
   Fix_PairByRequest = TRUE
+  Fix_NoPayloadCache = TRUE
 INVARIANT Pairing
 INVARIANT CompleteAtReturn
 INVARIANT CallbackAtMostOnce
